@@ -136,6 +136,22 @@
         }
     }
 
+    // a negative duration moves the date the other way: date + (-D) == date - D, date - (-D) == date + D
+    #[kani::proof]
+    fn negative_duration_flips() {
+        let cfg = empty_config();
+        let date = any_date_in(1990, 2040);
+        let n: i64 = kani::any();
+        kani::assume(n >= 1 && n < 30);
+        let me = DateItem(date, tz());
+        let a = result_date(me.calculate(&cfg, true, &DurationItem(Duration::days(-n)), OperationType::Add));
+        let b = result_date(me.calculate(&cfg, true, &DurationItem(Duration::days(n)), OperationType::Sub));
+        assert!(a.is_some() && a == b, "OBL:plus_negative_is_minus_positive");
+        let c = result_date(me.calculate(&cfg, true, &DurationItem(Duration::days(-n)), OperationType::Sub));
+        let d = result_date(me.calculate(&cfg, true, &DurationItem(Duration::days(n)), OperationType::Add));
+        assert!(c.is_some() && c == d, "OBL:minus_negative_is_plus_positive");
+    }
+
     #[kani::proof]
     fn other_operands_and_operators() {
         let cfg = empty_config();
